@@ -136,6 +136,7 @@ CHECKS = {
             {"pkg": "core", "run": "^TestC07Lifecycle$", "quick": 500, "thorough": 20000, "shards_thorough": 8},
             {"pkg": "core", "run": "^TestC07HookGate$", "quick": 400, "thorough": 10000, "shards_thorough": 4},
             {"pkg": "core", "run": "^TestC07DialHook$", "quick": 60, "thorough": 1500, "shards_thorough": 4},
+            {"pkg": "core", "run": "^TestC07DialRetries$", "quick": 100, "thorough": 3000, "shards_thorough": 4},
         ],
     },
     "C08": {
@@ -144,6 +145,7 @@ CHECKS = {
                         "after a connection loss a session cancels its pending calls once its own running handlers finished; completion is therefore awaited after all releases"],
         "runs": [
             {"pkg": "core", "run": "^TestC08WebsocketClose$", "quick": 300, "thorough": 10000, "shards_thorough": 4},
+            {"pkg": "core", "run": "^TestC08PeerCloseManySessions$", "quick": 300, "thorough": 10000, "shards_thorough": 4},
             {"pkg": "core", "run": "^TestC08GracefulClose$", "quick": 1000, "thorough": 40000, "shards_thorough": 8},
         ],
     },
